@@ -36,6 +36,75 @@ CHECKS["C19"] = dict(
     note="On-time / late is defined with a 2 ms margin around the nominal flush instant; zero-volume rows are "
          "don't-care. " + COMMON_NOTE)
 
+_EXSIM_TECH = ("runtime monitoring: generated backtests on the real exchange behind a recording proxy; snapshots of all "
+               "balances/orders/loans before and after every API call and after every dispatched event; ")
+_EXSIM_NOTE = ("Every traded symbol has its precision configured, initial balances on the grid, strategy uses only the "
+               "public async API. " + COMMON_NOTE)
+CHECKS["C01"] = dict(engine="exsim", level="exploration", design_ref="3/C01",
+    technique=_EXSIM_TECH + "shadow ledger (initial + fills - fees - paid interest) compared on every snapshot",
+    text="Hundreds (quick) to tens of thousands (thorough) of random and directed histories; the conservation equation "
+         "needs no expected value, so it is evaluated after every call and event. Exploration: histories are sampled.",
+    note=_EXSIM_NOTE)
+CHECKS["C02"] = dict(engine="exsim", level="exploration", design_ref="3/C02",
+    technique=_EXSIM_TECH + "sign and borrowed==open-principal checks on every snapshot plus icontract post-condition "
+              "on every internal AccountBalances.update",
+    text="Solvency invariants are checked at every quiescent point and, through an icontract post-condition applied "
+         "from the harness, after every internal balance update (mid-operation states included).",
+    note=_EXSIM_NOTE)
+CHECKS["C04"] = dict(engine="exsim", level="exploration", design_ref="3/C04",
+    technique=_EXSIM_TECH + "per-fill price/trigger oracle against the bar with the fill's timestamp; offline "
+              "completeness checker; exhaustive micro-scenarios over all weak orderings of O/H/L/C/limit/stop "
+              "(thorough)",
+    text="Every fill observed through order events is checked against its bar (price bounds per order type, trigger "
+         "rules); the thorough tier additionally enumerates all weak orderings of the six prices for every order kind "
+         "and side with infinite liquidity and ample funds, where completeness is decidable.",
+    note=_EXSIM_NOTE + " Tolerance: half a quote grid unit (one rounding).")
+CHECKS["C05"] = dict(engine="exsim", level="exploration", design_ref="3/C05",
+    technique=_EXSIM_TECH + "per-order monotone state machine over polled states, listing == shadow set for every "
+              "filter, offline comparison of the event sequence with the polled state sequence",
+    text="Polled order states and order events are two independent observations of the same lifecycle; they must agree "
+         "exactly, closures need a legitimate cause, and listings are compared with a shadow set on histories long "
+         "enough to re-index the open list many times.",
+    note=_EXSIM_NOTE)
+CHECKS["C06"] = dict(engine="exsim", level="exploration", design_ref="3/C06",
+    technique=_EXSIM_TECH + "shadow reservation per open order (installed at acceptance, shrunk by observed fills) "
+              "summed and compared with Balance.hold; independent reservation formula; boundary replays (exactly R "
+              "accepted, R - one unit rejected)",
+    text="Holds are compared with the sum of shadow reservations whenever the event stream has caught up with the "
+         "polled state; every closing path under every lending strategy is driven; boundary acceptance is decided by "
+         "re-running the same request with exactly / one unit less than the reservation.",
+    note=_EXSIM_NOTE + " Reservations whose rounded notional is zero are don't-care.")
+CHECKS["C07"] = dict(engine="exsim", level="exploration", design_ref="3/C07",
+    technique=_EXSIM_TECH + "full-state equality around every raising call, rejections classified by origin",
+    text="Every rejected request of every history is bracketed by two snapshots that must be equal (modulo loans "
+         "created and cancelled inside a rejected auto-borrow). Rejections come from the workload (validation, hold, "
+         "borrowing, margin rule, repayment, cancel), not from synthetic failpoints.",
+    note=_EXSIM_NOTE)
+CHECKS["C08"] = dict(engine="exsim", level="exploration", design_ref="3/C08",
+    technique=_EXSIM_TECH + "offline per-(pair,bar) liquidity walk over the order-event log in acceptance order; grid "
+              "membership of every fill, fee and reported balance",
+    text="Fills are grouped by bar from the event log and walked in acceptance order against the bar's share of volume; "
+         "precision classes cover all base/quote precisions 0..8.",
+    note=_EXSIM_NOTE)
+CHECKS["C09"] = dict(engine="exsim", level="exploration", design_ref="3/C09",
+    technique=_EXSIM_TECH + "closed-form fee reference evaluated for every order on every snapshot",
+    text="The closed form ceil(max(pct*Q/100, min)) is compared with OrderInfo.fees after every event, so every "
+         "intermediate partial-fill state of every order is covered.",
+    note=_EXSIM_NOTE)
+CHECKS["C10"] = dict(engine="exsim", level="exploration", design_ref="3/C10",
+    technique=_EXSIM_TECH + "independent equity / required-margin computation from public balances and last prices "
+              "after every granted loan; boundary loans sized at run time (largest grantable +- one unit)",
+    text="Necessary condition checked on every grant (explicit and automatic); workloads aim at the boundary, empty and "
+         "zero-equity accounts, several borrowed symbols, moving prices.",
+    note=_EXSIM_NOTE + " Equity uses the code's / Binance's definition (per symbol max(0, net) at last price).")
+CHECKS["C11"] = dict(engine="exsim", level="exploration", design_ref="3/C11",
+    technique=_EXSIM_TECH + "interval interest reference on every LoanInfo reading, exact debit check around "
+              "repay_loan, closure-cause attribution between consecutive snapshots, greedy largest-first reference",
+    text="Every interest reading is compared with an exact-rational reference (interval because of the float ratio); "
+         "loan closures are attributed to one of the three permitted causes; auto-repay is compared with a greedy "
+         "reference when exactly one order changed in the interval.",
+    note=_EXSIM_NOTE)
+
 NOT_YET = {}
 
 
